@@ -786,7 +786,11 @@ class Worker(object):
                 if _name == "code" and not (len(op) > 1 and op[1] == "all"):
                     continue        # rewriting code would (legitimately) invalidate its translations
                 j.vm.set_mem(addr, bytes.fromhex(hexdata))
-            j.cpu.set_gpreg(dict(self.initial_regs))      # every register, not only those the scenario sets
+            for k, v in self.initial_regs.items():       # every register, not only those the scenario sets
+                try:
+                    setattr(j.cpu, k, v)
+                except (AttributeError, TypeError, ValueError):
+                    pass
             for k, v in self.scn.get("regs", {}).items():
                 setattr(j.cpu, k, v)
         elif name == "snap":
